@@ -570,7 +570,7 @@ def d6(ctx, prog):
 
 
 def d7(ctx, prog):
-    """moving_sum on symbolic signals (sa.symtensor): for a 1-D signal of 5 samples and a 2 x 4 array, every window size and axis, the
+    """moving_sum on symbolic signals (sa.symtensor): for a 1-D signal of 5 samples, a 2 x 4 and a 2 x 3 x 3 array, every window size and axis, the
     value returned must hold exactly the sums of the windows of consecutive samples along the axis (window 1: the samples
     themselves); `pad` is read as "zeros of the target shape with the array placed at the offsets", `cast_array` as the identity."""
     from .. import symtensor, ratfun
@@ -592,7 +592,7 @@ def d7(ctx, prog):
     n = 0
     bad = None
     try:
-        for shape in ((5,), (2, 4)):
+        for shape in ((5,), (2, 4), (2, 3, 3)):
             data = np.empty(shape, dtype=object)
             for idx in np.ndindex(*shape):
                 data[idx] = ratfun.Q.sym('x' + ''.join(map(str, idx)))
@@ -625,6 +625,216 @@ def d7(ctx, prog):
     return n
 
 
+def d8(ctx, prog):
+    """functions that touch the samples only through comparisons, decided over the finite set of orderings (sa.symtensor in numeric
+    mode): every signal of length 0..L over the values {0, 1, 2} (threshold 1: below / on / beyond), both directions and the
+    width-bound configurations for find_width; every signal of length 1..L over {0, 1, 2, 3} and distances 0..3 for find_peaks.
+      find_width   = the maximal runs strictly beyond the threshold that do not touch either end of the signal and satisfy the
+                     width bounds, each as [first index, index after the last], in order;
+      find_peaks   : every returned index is a local maximum (plateau points included) not lower than the height; two returned
+                     indexes are at least min_peak_distance apart; every dropped candidate has another candidate closer than
+                     min_peak_distance whose value is at least as large."""
+    from .. import symtensor, ratfun
+    import itertools
+    PD = 'scared.signal_processing.peaks_detection'
+    np = symtensor.np
+    if np is None:
+        ctx.undecided('C19-D8', f'{PD}::orderings', 'numpy is not available to the analysis interpreter')
+        return 0
+    L = 6 if ctx.tier == 'thorough' else 4
+    n = 0
+    fw = prog.need_func(PD, 'find_width')
+    key = f'{fw.key}::runs (all orderings)'
+    dirs = {}
+    for nm, v in prog.need_class(PD, 'Direction').class_assigns.items():
+        from ..model import const_value
+        if isinstance(const_value(v), int):
+            dirs[nm] = const_value(v)
+    bad = None
+    try:
+        configs = [(1, None, None), (2, None, None), (1, 2, None), (2, 3, None), (2, None, 1), (3, None, 1)]
+        for length in range(0, L + 3):
+            for vals in itertools.product((0, 1, 2) if length <= L else (0, 2), repeat=length):
+                data = np.array(vals, dtype=np.int64)
+                for dname, dval in dirs.items():
+                    beyond = [(v > 1) if dname == 'POSITIVE' else (v < 1) for v in vals]
+                    runs = []
+                    i = 0
+                    while i < length:
+                        if beyond[i]:
+                            j = i
+                            while j < length and beyond[j]:
+                                j += 1
+                            if i > 0 and j < length:
+                                runs.append((i, j))
+                            i = j
+                        else:
+                            i += 1
+                    for mn, mx, dl in configs:
+                        if mx is not None:
+                            want = [r for r in runs if mn <= r[1] - r[0] <= mx]
+                        elif dl is not None:
+                            want = [r for r in runs if mn - dl <= r[1] - r[0] <= mn + dl]
+                        else:
+                            want = [r for r in runs if r[1] - r[0] >= mn]
+                        te = symtensor.TensorEval(prog, None, {'direction.value': dval, 'direction': ('DIR', dname), f'Direction.{dname}': ('DIR', dname)})
+                        te.numeric = True
+                        te.summaries = {'_check_find_width_args': lambda a, k: None, '_check_data': lambda a, k: None}
+                        n += 1
+                        try:
+                            got = te.run(fw, {'data': data, 'direction': ('DIR', dname), 'threshold': 1, 'min_width': mn, 'max_width': mx, 'delta': dl})
+                        except symtensor.Raised as e:
+                            got = f'raises {e.kind}'
+                        except (IndexError, ValueError) as e:
+                            got = f'raises {type(e).__name__}'
+                        gl = [tuple(int(x) for x in row) for row in np.asarray(got).reshape(-1, 2)] if isinstance(got, np.ndarray) else got
+                        if gl != want and bad is None:
+                            bad = f'signal {list(vals)}, threshold 1, Direction.{dname}, min_width={mn}, max_width={mx}, delta={dl}: returns {gl}, the bracketed runs strictly beyond the threshold within the bounds are {want}'
+        ctx.check(bad is None, 'C19-D8', key, f'{bad}', f'{n} (signal ordering, direction, bounds) cases up to length {L}: exactly the bracketed runs strictly beyond the threshold, as [first, after last]', fw.where(), cases=n)
+    except ratfun.Unknown as e:
+        ctx.undecided('C19-D8', key, f'find_width not evaluable: {e}', fw.where())
+    fp = prog.need_func(PD, 'find_peaks')
+    key = f'{fp.key}::peaks (all orderings)'
+    bad = None
+    m = 0
+    try:
+        for length in range(1, L + 1):
+            for vals in itertools.product((0, 1, 2, 3), repeat=length):
+                data = np.array(vals, dtype=np.int64)
+                for dist in (0, 1, 2, 3):
+                    for height in (0, 2):
+                        te = symtensor.TensorEval(prog, None, {})
+                        te.numeric = True
+                        te.summaries = {'_check_data': lambda a, k: None}
+                        m += 1
+                        try:
+                            got = te.run(fp, {'data': data, 'min_peak_distance': dist, 'min_peak_height': height})
+                        except (symtensor.Raised, IndexError, ValueError) as e:
+                            bad = bad or f'signal {list(vals)}, distance {dist}, height {height}: raises {getattr(e, "kind", type(e).__name__)}'
+                            continue
+                        got = [int(x) for x in np.asarray(got).reshape(-1)]
+                        cand = [i for i in range(length) if vals[i] >= height and (i == 0 or vals[i] >= vals[i - 1]) and (i == length - 1 or vals[i] >= vals[i + 1])]
+                        why = None
+                        if any(g not in cand for g in got) or sorted(set(got)) != got:
+                            why = 'an index that is not a local maximum of sufficient height (or a repeated / unordered one) is returned'
+                        elif any(abs(a - b) < dist for a in got for b in got if a != b):
+                            why = 'two returned peaks are closer than min_peak_distance'
+                        else:
+                            for c in cand:
+                                if c not in got and not any(o != c and abs(o - c) < dist and vals[o] >= vals[c] for o in cand):
+                                    why = f'candidate {c} is dropped although no other candidate within the distance is at least as high'
+                                    break
+                        if why and bad is None:
+                            bad = f'signal {list(vals)}, min_peak_distance {dist}, height {height}: returns {got} - {why}'
+        ctx.check(bad is None, 'C19-D8', key, f'{bad}', f'{m} (signal ordering, distance, height) cases up to length {L}: only sufficient local maxima, pairwise at least the distance apart, '
+                  'nothing dropped without a rival at least as high within the distance', fp.where(), cases=m)
+    except ratfun.Unknown as e:
+        ctx.undecided('C19-D8', key, f'find_peaks not evaluable: {e}', fp.where())
+    return n + m
+
+
+def d9(ctx, prog):
+    """pad and extract_around_indexes on symbolic arrays (sa.symtensor):
+      pad(array, target, offsets, pad_with)[i] = array[i - offsets] inside the placed block, pad_with everywhere else (1-D and 2-D,
+      every offset that fits; offsets=None = zeros; a target too small in a dimension is refused);
+      extract_around_indexes: STACK[i][j] = data[indexes[i] - before + j] for j in 0..before+after, CONCATENATE = the rows one after
+      another, AVERAGE = their mean over i."""
+    from .. import symtensor, ratfun
+    import itertools
+    np = symtensor.np
+    if np is None:
+        ctx.undecided('C19-D9', 'scared.signal_processing::pad / extract', 'numpy is not available to the analysis interpreter')
+        return 0
+    Q = ratfun.Q
+
+    def same(a, b):
+        a = a if isinstance(a, Q) else Q.lift(a)
+        b = b if isinstance(b, Q) else Q.lift(b)
+        return a.same(b)
+    n = 0
+    f = prog.need_func('scared.signal_processing.base', 'pad')
+    key = f'{f.key}::placement'
+    bad = None
+    try:
+        pw = Q.sym('p')
+        for shape, target in (((2,), (4,)), ((3,), (3,)), ((2, 2), (3, 4)), ((1, 3), (2, 3))):
+            arr = np.empty(shape, dtype=object)
+            for idx in np.ndindex(*shape):
+                arr[idx] = Q.sym('a' + ''.join(map(str, idx)))
+            offsets = [None] + list(itertools.product(*[range(0, t - d + 2) for t, d in zip(target, shape)]))
+            for offs in offsets:
+                te = symtensor.TensorEval(prog, None, {})
+                n += 1
+                fits = offs is None or all(o + d <= t for o, d, t in zip(offs, shape, target))
+                bind = dict(zip(f.params, (arr.copy(), target, offs, pw)))
+                if offs is None:
+                    bind = dict(zip(f.params, (arr.copy(), target)))        # both defaults: offsets of zero, padded with 0
+                try:
+                    got = te.run(f, bind)
+                except symtensor.Raised as e_:
+                    if fits:
+                        bad = bad or f'array of shape {shape} into {target} at offsets {offs}: refused ({e_.kind}) although it fits'
+                    continue
+                except (ValueError, IndexError) as e_:
+                    got = f'{type(e_).__name__}'
+                if not fits:
+                    bad = bad or f'array of shape {shape} into {target} at offsets {offs}: does not fit but is not refused by the function'
+                    continue
+                if not isinstance(got, np.ndarray) or got.shape != tuple(target):
+                    bad = bad or f'array of shape {shape} into {target} at offsets {offs}: result {getattr(got, "shape", got)}'
+                    continue
+                o_ = offs if offs is not None else (0,) * len(shape)
+                for idx in np.ndindex(*target):
+                    src = tuple(i - o for i, o in zip(idx, o_))
+                    want = arr[src] if all(0 <= s_ < d for s_, d in zip(src, shape)) else (pw if offs is not None else Q.const(0))
+                    if not same(got[idx], want) and bad is None:
+                        bad = f'array of shape {shape} into {target} at offsets {offs}: entry {idx} is not {"the array sample " + str(src) if all(0 <= s_ < d for s_, d in zip(src, shape)) else "pad_with (0 by default)"}'
+        ctx.check(bad is None, 'C19-D9', key, f'{bad}', f'{n} (shape, target, offsets) cases: the array at the offsets, pad_with elsewhere, misfits refused', f.where(), cases=n)
+    except ratfun.Unknown as e:
+        ctx.undecided('C19-D9', key, f'pad not evaluable: {e}', f.where())
+    PD = 'scared.signal_processing.peaks_detection'
+    f = prog.need_func(PD, 'extract_around_indexes')
+    key = f'{f.key}::samples taken'
+    bad = None
+    m = 0
+    try:
+        N = 8
+        data = np.array([Q.sym(f'd{i}') for i in range(N)], dtype=object)
+        modes = [k for k in prog.need_class(PD, 'ExtractMode').class_assigns if k.isupper()]
+        for idxs in ((3,), (2, 5), (4, 2, 4)):
+            for before in range(0, 3):
+                for after in range(0, 3):
+                    rows = [[data[i - before + j] for j in range(before + after + 1)] for i in idxs]
+                    for mode in modes:
+                        te = symtensor.TensorEval(prog, None, {})
+                        te.numeric = True
+                        m += 1
+                        got = te.run(f, dict(zip(f.params, (data.copy(), np.array(idxs, dtype=np.int64), before, after, symtensor.enum_member(prog, PD, 'ExtractMode', mode)))))
+                        if mode == 'STACK':
+                            want = np.array(rows, dtype=object).reshape(len(idxs), before + after + 1)
+                        elif mode == 'CONCATENATE':
+                            want = np.array([x for r in rows for x in r], dtype=object)
+                        elif mode == 'AVERAGE':
+                            want = np.empty(before + after + 1, dtype=object)
+                            for j in range(before + after + 1):
+                                tot = Q.const(0)
+                                for r in rows:
+                                    tot = tot + r[j]
+                                want[j] = tot / len(rows)
+                        else:
+                            continue
+                        if not isinstance(got, np.ndarray) or got.shape != want.shape:
+                            bad = bad or f'indexes {idxs}, before {before}, after {after}, {mode}: result of shape {getattr(got, "shape", None)}, documented {want.shape}'
+                            continue
+                        for idx in np.ndindex(*want.shape):
+                            if not same(got[idx], want[idx]) and bad is None:
+                                bad = f'indexes {idxs}, before {before}, after {after}, {mode}: entry {idx} is not the documented sample(s) data[index - before + j]'
+        ctx.check(bad is None, 'C19-D9', key, f'{bad}', f'{m} (indexes, before, after, mode) cases: exactly the samples index-before .. index+after, stacked / concatenated / averaged', f.where(), cases=m)
+    except ratfun.Unknown as e:
+        ctx.undecided('C19-D9', key, f'extract_around_indexes not evaluable: {e}', f.where())
+    return n + m
+
+
 def run(ctx, prog):
     ctx.rule('C19-D1', 'peak filter: candidate positions never overwritten, no possibly-negative sentinel used as position/index, returns a selection of the candidates')
     ctx.rule('C19-D2', 'powers/products of array parameters happen after the float64 cast')
@@ -637,6 +847,10 @@ def run(ctx, prog):
     ctx.rule('C19-D4', 'axis-parameter discipline: axis-wise operations receive the axis parameter, or a literal axis k of an array into which the requested axis was moved')
     ctx.floor('axis-wise operations judged', d4(ctx, prog), 2)
     ctx.floor('in-place effects judged', n3, 2)
+    ctx.rule('C19-D8', 'comparison-only functions decided over all orderings of short signals: find_width = the bracketed runs strictly beyond the threshold within the width bounds; find_peaks = sufficient local maxima, pairwise distance, no candidate dropped without a rival')
+    ctx.floor('ordering cases interpreted', d8(ctx, prog), 1000)
+    ctx.rule('C19-D9', 'pad places the array at the offsets and pad_with elsewhere (misfits refused); extract_around_indexes takes exactly data[index-before .. index+after], stacked / concatenated / averaged')
+    ctx.floor('placement cases interpreted', d9(ctx, prog), 50)
     ctx.rule('C19-D7', 'moving_sum returns the window sums along the requested axis for every window size (symbolic 1-D and 2-D signals)')
     ctx.floor('moving_sum cases evaluated', d7(ctx, prog), 15)
     ctx.rule('C19-D6', 'algebraic value numbering of the window statistics (var, std, skew, kurtosis, correlation, distance, bcdc) over a symbolic window, moving_sum / moving_mean / correlate read as window sum / mean / dot product')
